@@ -23,7 +23,7 @@ func c03NonTrivial(tags map[string]int, ev map[string]int) bool {
 
 func TestC03(t *testing.T) {
 	r, e := start(t, "C03",
-		"programs over []int/[]bool/[]string and strings: literals of length 0-13, aliasing by assignment/parameter/return value, element writes with literal/computed/len()-based indices, growth by 0, 1 and >=2 past the end (gap fill), len, range with one/two variables over slices and strings, copy(dst, src) incl. dst==src, s[i], s[a:b], s[:b], s[a:], s[:], +, ==, != on strings; contents of global slices are dumped. Oracle: reference interpreter (slice = shared growable cell). Plus an exhaustive sweep of all (a,b) substring bounds for lengths 0..L. Non-trivial = growth, copy, a boundary substring, a string index, a write followed by a read, or a range loop; distinct by source text.",
+		"programs over []int/[]bool/[]string and strings: literals of length 0-13, aliasing by assignment/parameter/return value, element writes with literal/computed/len()-based indices, growth by 0, 1 and >=2 past the end (gap fill), len, range with one/two variables over slices and strings, copy(dst, src) incl. dst==src, s[i], s[a:b], s[:b], s[a:], s[:], +, ==, != on strings; contents of global slices are dumped. Oracle: reference interpreter (slice = shared growable cell). Plus an exhaustive sweep of all (a,b) substring bounds for lengths 0..L. Non-trivial = growth, copy, a boundary substring, a string index, a write followed by a read, or a range loop; distinct by source text. A third of the programs (by a hash of the text) additionally run as the text of an imported file (same output expected).",
 		[]string{"excluded as undefined: out-of-range reads, negative indices, resizing a slice while ranging over it, copy into a longer destination", "element values use the shell-neutral alphabet (C08 owns blanks/metacharacters in elements)"})
 	defer r.Flush()
 	runSweep(r, e, "C03", c03SweepPrograms(e.Pick(6, 12)), "substring-and-index-bounds")
